@@ -43,66 +43,74 @@ def expected() -> dict:
     return json.load(open(p)) if os.path.exists(p) else {"digest": None, "caught_by": {}, "twins_silent": []}
 
 
+_REF_BAD = {}
+
+
+def _battery_job(args):
+    """one seeded change / refactor twin in a scratch copy (worker process)"""
+    import importlib
+    prop, sid, patch, must_fire, root, base_bad = args
+    analyse = importlib.import_module(f"opstatic.checks.{prop}").analyse
+    if not os.path.exists(patch):
+        return {"id": sid, "result": "patch file missing"}, None
+    tmp = scratch_with_patch(root, patch)
+    on = "current tree"
+    bb = set(map(tuple, base_bad))
+    if tmp is None:
+        # the current tree has drifted from the one the change was written for: use the frozen reference tree
+        ref = os.path.join(VERIF, "fixtures", "reference")
+        tmp = scratch_with_patch(ref, patch) if os.path.isdir(ref) else None
+        if tmp is None:
+            return {"id": sid, "result": "skipped: patch applies neither to the current nor to the reference tree"}, None
+        on = "reference tree"
+        if prop not in _REF_BAD:
+            b0 = CheckContext(prop, "quick")
+            try:
+                analyse(b0, Program(ref))
+            except AnalysisError:
+                pass
+            _REF_BAD[prop] = {(o.rule, o.key) for o in b0.obligations if not o.ok}
+        bb = _REF_BAD[prop]
+    try:
+        sub = CheckContext(prop, "quick")
+        err = None
+        try:
+            analyse(sub, Program(tmp))
+        except AnalysisError as e:
+            err = str(e)
+        new_bad = [o for o in sub.obligations if not o.ok and (o.rule, o.key) not in bb]
+        if must_fire:
+            ok = bool(new_bad)
+            row = {"id": sid, "kind": "mutant", "result": "reported" if ok else ("analysis-error: " + err if err else "MISSED"),
+                   "by": sorted({o.rule for o in new_bad})[:4], "on": on}
+            return row, (None if ok else f"battery: seeded change {sid} is no longer reported by {prop} on the {on}")
+        ok = not new_bad and err is None
+        row = {"id": sid, "kind": "twin", "on": on, "result": "silent" if ok else ("FALSE ALARM: " + (err or "; ".join(f"{o.rule} {o.key}" for o in new_bad[:2])))}
+        return row, (None if ok else f"battery: behaviour-preserving refactoring {sid} raises an alarm in {prop}: "
+                     + (err or "; ".join(f"{o.rule} {o.key}" for o in new_bad[:2])))
+    finally:
+        shutil.rmtree(tmp, ignore_errors=True)
+
+
 def run_battery(ctx: CheckContext, analyse: Callable, root: Optional[str] = None):
+    """thorough tier: every seeded change this check is expected to report and every refactor twin, each in its own scratch copy (16 workers)"""
+    import concurrent.futures as cf
     root = root or repo_root()
     exp = expected()
     same_tree = exp.get("digest") == package_digest(root)
-    base_bad = {(o.rule, o.key) for o in ctx.obligations if not o.ok}
-    rows = []
-    ref_bad = None
-    # ---- mutants this property's check is expected to catch
-    jobs: List[Tuple[str, str, bool]] = []
+    base_bad = sorted({(o.rule, o.key) for o in ctx.obligations if not o.ok})
+    jobs = []
     for sid, props in sorted(exp.get("caught_by", {}).items()):
         if ctx.prop in props:
             patch = os.path.join(VERIF, "seeded", "historical", f"revert_{sid[5:]}.diff") if sid.startswith("hist-") else os.path.join(VERIF, "seeded", sid, "patch.diff")
-            jobs.append((sid, patch, True))
+            jobs.append((ctx.prop, sid, patch, True, root, base_bad))
     for sid in exp.get("twins_silent", []):
-        patch = os.path.join(VERIF, "seeded", "twins", sid, "patch.diff")
-        jobs.append((sid, patch, False))
-    for sid, patch, must_fire in jobs:
-        if not os.path.exists(patch):
-            rows.append({"id": sid, "result": "patch file missing"})
-            continue
-        tmp = scratch_with_patch(root, patch)
-        on = "current tree"
-        bb = base_bad
-        if tmp is None:
-            # the current tree has drifted from the one the change was written for: use the frozen reference tree
-            ref = os.path.join(VERIF, "fixtures", "reference")
-            tmp = scratch_with_patch(ref, patch) if os.path.isdir(ref) else None
-            if tmp is None:
-                rows.append({"id": sid, "result": "skipped: patch applies neither to the current nor to the reference tree"})
-                continue
-            on = "reference tree"
-            if ref_bad is None:
-                b0 = CheckContext(ctx.prop, "quick")
-                try:
-                    analyse(b0, Program(ref))
-                except AnalysisError:
-                    pass
-                ref_bad = {(o.rule, o.key) for o in b0.obligations if not o.ok}
-            bb = ref_bad
-        try:
-            sub = CheckContext(ctx.prop, "quick")
-            err = None
-            try:
-                analyse(sub, Program(tmp))
-            except AnalysisError as e:
-                err = str(e)
-            new_bad = [o for o in sub.obligations if not o.ok and (o.rule, o.key) not in bb]
-            if must_fire:
-                ok = bool(new_bad)
-                rows.append({"id": sid, "kind": "mutant", "result": "reported" if ok else ("analysis-error: " + err if err else "MISSED"),
-                             "by": sorted({o.rule for o in new_bad})[:4], "on": on})
-                if not ok and (same_tree or on == "reference tree"):
-                    ctx.error(f"battery: seeded change {sid} is no longer reported by {ctx.prop} on the reference tree")
-            else:
-                ok = not new_bad and err is None
-                rows.append({"id": sid, "kind": "twin", "on": on, "result": "silent" if ok else ("FALSE ALARM: " + (err or "; ".join(f"{o.rule} {o.key}" for o in new_bad[:2])))})
-                if not ok:
-                    ctx.error(f"battery: behaviour-preserving refactoring {sid} raises an alarm in {ctx.prop}: "
-                              + (err or "; ".join(f"{o.rule} {o.key}" for o in new_bad[:2])))
-        finally:
-            shutil.rmtree(tmp, ignore_errors=True)
+        jobs.append((ctx.prop, sid, os.path.join(VERIF, "seeded", "twins", sid, "patch.diff"), False, root, base_bad))
+    rows = []
+    with cf.ProcessPoolExecutor(max_workers=min(16, os.cpu_count() or 4)) as ex:
+        for row, problem in ex.map(_battery_job, jobs, chunksize=4):
+            rows.append(row)
+            if problem and (row.get("kind") == "twin" or same_tree or row.get("on") == "reference tree"):
+                ctx.error(problem)
     ctx.info["battery"] = {"reference_tree": same_tree, "mutants_reported": sum(1 for r in rows if r.get("result") == "reported"),
                            "twins_silent": sum(1 for r in rows if r.get("result") == "silent"), "rows": rows}
